@@ -421,7 +421,7 @@ func c03Schedule(c *Ctx) {
 			mc, _ := Strip(v).(*ssa.MakeClosure)
 			ok := mc != nil
 			if ok {
-				cl := mc.Fn.(*ssa.Function)
+				cl := BoundTarget(mc.Fn.(*ssa.Function)) // a method value (shared.get) stands for the method
 				// closure must not build schedules and must return a captured value deriving from the one NewRPSSchedule call
 				EachInstr(cl, func(in ssa.Instruction) {
 					if cc := CC(in); cc != nil {
